@@ -31,6 +31,32 @@ Fixpoint recorded (id : nat) (ops : list enc_op) (tbl : list N) (skip : bool) : 
   | _ :: r => recorded id r tbl skip
   end.
 
+(* real-valued and string-valued signals: a recorded value is the text of a VCD value change ("r1.5", "sfoo")
+   or the 8 little endian bytes of a double handed over directly (GHW, FST) *)
+Inductive rs_val := PText (v : list byte) | PReal (le : list byte).
+
+Fixpoint recorded_rs (id : nat) (ops : list enc_op) (tbl : list N) (skip : bool) : list (N * rs_val) :=
+  match ops with
+  | [] => []
+  | OpTime t :: r =>
+    match last_of tbl with
+    | None => recorded_rs id r (tbl ++ [t]) false
+    | Some p =>
+      match N.compare p t with
+      | Lt => recorded_rs id r (tbl ++ [t]) false
+      | Eq => recorded_rs id r tbl false
+      | Gt => recorded_rs id r tbl true
+      end
+    end
+  | OpVcd i v :: r =>
+    if skip || negb (Nat.eqb i id) then recorded_rs id r tbl skip
+    else (N.of_nat (length tbl) - 1, PText v) :: recorded_rs id r tbl skip
+  | OpReal i le :: r =>
+    if skip || negb (Nat.eqb i id) then recorded_rs id r tbl skip
+    else (N.of_nat (length tbl) - 1, PReal le) :: recorded_rs id r tbl skip
+  | _ :: r => recorded_rs id r tbl skip
+  end.
+
 (* consecutive entries with the same payload are reported once (the first one) *)
 Fixpoint dedup_by {A B} (eqb : B -> B -> bool) (key : A -> B) (l : list A) (prev : option B) : list A :=
   match l with
